@@ -458,6 +458,8 @@ class Machine(object):
             return self.call_callee(f.callee, args, where)
         if isinstance(f, Term):
             return Term("apply", f, *args)
+        if callable(f) and not isinstance(f, (Adt, PyVec)):
+            return f(*args)           # a Python model of an opaque callable supplied by the harness
         raise Unsupported("call of non-function value %r" % (f,), where)
 
     def call_callee(self, callee, args, where=""):
